@@ -1082,7 +1082,9 @@ class C07(Prop):
                     "random kinds (incl. line and collinear arc) on random slots, faces shifted/inverted: entry list of "
                     "Mesh.assemble vs Model add_all (vm_compute), non-trivial = at least one geometric edge defined by two "
                     "operations; (c) random edges near/far from the validity thresholds: Coq decides eligible / not eligible; "
-                    "distinct by canonical JSON of the input")
+                    "(d) Loft.from_series over 3..6 cross-sections and Revolve, then moved as a whole by 0..3 of translate/rotate/scale/"
+                    "mirror/invert/copy: direct oracle only (one entry per side edge, drawing the described arc/spline from its first "
+                    "vertex to its second, wire length); distinct by canonical JSON of the input")
         rows = getattr(self, "_rows", None)
         if rows is None:
             rows = tab_single()
@@ -1134,6 +1136,19 @@ class C07(Prop):
                 gid += 1
             if i == 0:
                 res.samples.append(dict(valid=dict(case=c, observed=r)))
+        # (d) side edges made by constructors (Loft.from_series, Revolve), operation then moved as a whole (oracle only)
+        from props import C07_ctor
+        seen_ctor = set()
+        for i in range(ctx.n(120, 2500)):
+            c = C07_ctor.gen_ctor_case(ctx.rng)
+            res.evaluations += 1
+            res.count("ctor:%s:%d transforms" % (c["ctor"], len(c["transforms"])))
+            res.distinct.add("ctor:" + json.dumps(c, sort_keys=True))
+            for f in C07_ctor.check_ctor(c):
+                if f["sig"] not in seen_ctor:
+                    seen_ctor.add(f["sig"])
+                    small = C07_ctor.shrink_ctor(c, f["sig"])
+                    res.oracle_failures.append(([g for g in C07_ctor.check_ctor(small) if g["sig"] == f["sig"]] or [f])[0])
         per = max(40, (len(goals) + 13) // 14)
         for k in range(0, len(goals), per):
             shards.append(("ncases_%d" % (k // per), N_HEAD + "\n".join(t for (_g, t) in goals[k:k + per])))
@@ -1237,6 +1252,15 @@ class C07(Prop):
                 except Exception as e:
                     ctx.log("search: mismatching program raised %s" % e)
         if not fails and not corr.oracle_failures:
+            from props import C07_ctor
+            for i in range(ctx.n(300, 3000)):
+                c = C07_ctor.gen_ctor_case(ctx.rng)
+                fs = C07_ctor.check_ctor(c)
+                if fs:
+                    small = C07_ctor.shrink_ctor(c, fs[0]["sig"])
+                    fails.append(([g for g in C07_ctor.check_ctor(small) if g["sig"] == fs[0]["sig"]] or fs)[0])
+                    break
+        if not fails and not corr.oracle_failures:
             for i in range(ctx.n(400, 4000)):
                 try:
                     prog = gen_program(ctx.rng, max_ops=6)
@@ -1278,6 +1302,16 @@ class C07(Prop):
             print("implementation: entries", json.dumps(ob["entries"]))
             print("model requests:", ob["requests"])
             print("oracle:", oracle_program(obj["program"], ob) or "ok")
+        elif k == "ctor":
+            from props import C07_ctor
+            fs = C07_ctor.check_ctor(obj["case"])
+            try:
+                ob = C07_ctor.run_ctor_case(obj["case"])
+                print("implementation: entries", json.dumps(ob["entries"]))
+                print("described side edges:", json.dumps(C07_ctor.described(obj["case"])))
+            except Exception as e:  # noqa: BLE001
+                print("implementation raised", type(e).__name__, e)
+            print("oracle:", [(f["why"], f["sig"]) for f in fs] or "ok")
         elif k == "valid":
             r = run_valid_case(obj["case"])
             print("implementation:", r)
